@@ -1,6 +1,7 @@
 import Ww.Gen.Meta
 import Ww.Model.Sys
 import Ww.Proofs.C06
+import Ww.Proofs.C07
 /-!
 # C08 — Automatic refresh follows the documented schedule, cooldown and mode rules
 
@@ -202,5 +203,13 @@ theorem expired_is_refreshed (cfg : Cfg) (d : Data) (plan : IdpPlan) (a r : Stri
   unfold getSession getOrRefresh refresh getSess
   simp [hm, ha, hve, hsr, hcr]
   cases plan <;> simp [SessErr.isInvalid]
+
+/-- **never during the cooldown, also under concurrency**: in the interleaving model (any number of racing requests of any kind, any schedule)
+    the refresh performed first puts the stored pair on cooldown, and no later step of any process - including the ones that had already decided to
+    refresh before the first grant and were waiting for the lock - is a provider call. (`Ww.Proofs.C07.one_refresh` read as a C08 statement: the
+    re-check under the lock is what makes the cooldown rule hold for requests that raced.) -/
+theorem no_grant_on_cooldown_concurrent (kinds : Ww.Model.Sched.Pid → Ww.Model.Sched.Kind) (g0 : Nat) (ps : List Ww.Model.Sched.Pid) :
+    (ps.foldl (fun s p => (Ww.Model.Sched.step s p).1) (Ww.Model.Sched.init kinds g0)).presented.length ≤ 1 :=
+  Ww.Proofs.C07.one_refresh kinds g0 ps
 
 end Ww.Proofs.C08
